@@ -53,6 +53,16 @@ std::atomic<bool> g_log_reads{false};
 
 } // namespace
 
+std::atomic<uint64_t> g_bad_closes{0};
+extern "C" int __real_close(int fd);
+extern "C" int __wrap_close(int fd) {
+    const int r = __real_close(fd);
+    // closing a descriptor that is not open: the caller closed it twice. With a second open()
+    // in between this would close somebody else's file.
+    if (r != 0 && errno == EBADF && fd >= 0 && g_log_reads.load(std::memory_order_relaxed)) g_bad_closes.fetch_add(1, std::memory_order_relaxed);
+    return r;
+}
+
 extern "C" ssize_t __real_read(int fd, void* buf, size_t n);
 extern "C" ssize_t __wrap_read(int fd, void* buf, size_t n) {
     if (g_log_reads.load(std::memory_order_relaxed)) {
@@ -415,6 +425,7 @@ void case_fault(uint64_t idx, vh::Rng& rng) {
             std::istringstream ss{leaked}; int fd; while (ss >> fd) ::close(fd);
         }
     }
+    if (g_bad_closes.exchange(0) > 0) vh::violation(std::string("close(2) called on a descriptor that is not open (descriptor closed twice): ") + FMT_NAME[fmt] + (from_file ? " from file" : ""), cfg);
     // ---- (4) nothing is read from the input after close() returned
     if (out.close_returned_seq) {
         if (via_mock && g_mock_last_read_seq.load() > out.close_returned_seq) vh::violation(std::string("Decompressor::read() called after close() returned: ") + FMT_NAME[fmt], cfg);
